@@ -5,7 +5,8 @@
 (*    reread : the state gix read back from `out`, reread_failed,             *)
 (*    version_ret, checksum : what write_to returned,                         *)
 (*    sha_body : SHA-1 of out without its last 20 bytes (hashlib),            *)
-(*    eoie_pre, eoie_sha : what the EOIE hash covers for the expected state   *)
+(*    check_eoie, eoie_pre, eoie_sha : what the EOIE hash covers for the      *)
+(*                         expected state                                    *)
 (*                         (rendered by the spec) and its SHA-1 (hashlib)]    *)
 EXTENDS IndexFormat_Trace
 
@@ -25,7 +26,7 @@ Why2(r) ==
        \cup (IF d.sparse # r.expect.sdir THEN {"sparse"} ELSE {})
        \cup (IF \E i \in 1..Len(d.exts) : d.exts[i] \notin {SigTREE, SigEOIE, SigSDIR} THEN {"unexpected-extension"} ELSE {})
        \cup (IF d.eoie /\ ~r.expect.eoie THEN {"eoie-unwanted"} ELSE {})
-       \cup (IF d.eoie /\ (d.eoie_pre # r.eoie_pre \/ d.eoie_hash # r.eoie_sha) THEN {"eoie-hash"} ELSE {})
+       \cup (IF d.eoie /\ r.check_eoie /\ (d.eoie_pre # r.eoie_pre \/ d.eoie_hash # r.eoie_sha) THEN {"eoie-hash"} ELSE {})
        \cup (IF r.reread_failed THEN {"reread-error"} ELSE {x \o "-reread" : x \in Diff(r.reread, d)})
 
 Judge2(r) == Why2(r) = {}
